@@ -269,6 +269,36 @@ impl World {
         Ok(sol)
     }
 
+    /// Does a request of node `n` (transitively, over the input-determined call graph) reach a
+    /// function without cycle handling that lies on a call cycle?
+    pub fn reaches_plain_cycle(&self, n: u8) -> bool {
+        let cnt = self.code.len();
+        let sol = Sol { fx: vec![0; cnt], fb_cyclic: vec![false; cnt], fb_done: false };
+        let mut edges = vec![BTreeSet::new(); cnt];
+        for i in 0..cnt {
+            let mut r = Rf::new(self, &sol);
+            r.edge_only = true;
+            r.body_edges(i as u8);
+            edges[i] = r.edges.clone();
+        }
+        let reach = |from: usize| {
+            let mut seen = BTreeSet::new();
+            let mut st: Vec<u8> = edges[from].iter().copied().collect();
+            while let Some(j) = st.pop() {
+                if seen.insert(j) {
+                    st.extend(edges[j as usize].iter().copied());
+                }
+            }
+            seen
+        };
+        let mut from_n = reach(n as usize);
+        from_n.insert(n);
+        from_n.iter().any(|m| {
+            let plain = !matches!(self.kinds[*m as usize], Kind::Fx | Kind::Fxj | Kind::Fb);
+            plain && reach(*m as usize).contains(m)
+        })
+    }
+
     /// Does the equation system of the Fx nodes have any fixpoint at all? (brute force over the
     /// value domain `dom` for every Fx node; used by C15 to select fixpoint-free systems)
     pub fn has_any_fixpoint(&self, dom: &[u8]) -> bool {
